@@ -10,7 +10,7 @@ Lemma gen_run_forest input rows f st' :
   parses p0 rows (forest_items f) st' ->
   gen_all input = Ok (map trie_of f) /\ gen_stream input = (map trie_of f, Ok tt).
 Proof.
-  intros Hscan Hp. unfold gen_all, gen_stream, gen_run. rewrite Hscan.
+  intros Hscan Hp. unfold gen_all, gen_stream, gen_all_r, gen_stream_r, gen_run_r, scan_lines_r. rewrite Hscan.
   destruct f as [|t0 f'].
   - destruct (gen_loop_items rows p0 [] st' g0 Hp eq_refl ([], None) eq_refl) as [s' [Hl [Hi _]]].
     rewrite Hl. unfold ist_of in Hi. inversion Hi as [[Hd Hc]]. cbn. rewrite Hd, Hc. cbn. auto.
@@ -74,7 +74,7 @@ Theorem output_text_forest bf ni input rows f st' :
              chunks_text ws = Some (render bf (map trie_of f)).
 Proof.
   intros Hs Hp. destruct (gen_run_forest _ _ _ _ Hs Hp) as [Ha Hst].
-  unfold output_md. destruct ni; cbn [text_cfg c_noiter].
+  unfold output_md, output_md_r. fold (gen_all input). fold (gen_stream input). destruct ni; cbn [text_cfg c_noiter].
   - change {| c_bf := bf; c_enc := EncDefault; c_dry := false; c_exts := []; c_noiter := true |} with (text_cfg bf true).
     rewrite Ha, grow_all_text. unfold spread_all. cbn [text_cfg c_dry c_enc is_default].
     eexists. split; [reflexivity|].
